@@ -598,7 +598,7 @@ class Server(BaseComponent):
             socks = [sock]
 
         for sock in socks:
-            if not self._buffers[sock]:
+            if not self._buffers.get(sock):
                 self._close(sock)
             elif sock not in self._closeq:
                 self._closeq.append(sock)
